@@ -4,7 +4,7 @@ From Coq Require Import ZArith QArith List Bool Lia.
 From RecordUpdate Require Import RecordSet.
 From TM Require Import Sched.Vec Sched.Types Sched.Queue Sched.Tree Sched.Cycle Sched.Events Sched.Steps Sched.MapsP
                        Sched.FrameP Sched.InvAcct Sched.InvIdent Sched.TurnP Sched.CycleP Sched.InvAlloc Sched.InvIdRec
-                       Sched.KeepP Sched.IdRange.
+                       Sched.KeepP Sched.IdRange Sched.InvAff Sched.DisplaceP Sched.DisplaceC.
 Import ListNotations.
 Open Scope Z_scope.
 
@@ -140,3 +140,29 @@ Qed.
 Theorem reachable_blacklisted c ch x a : Good c -> app_of c x = Some a -> a_blacklisted a = true ->
   exists a', app_of (step c (OSchedule ch)) x = Some a' /\ a_server a' = None /\ no_id a'.
 Proof. intros (HA & [HI _] & _) Ha Hbl. rewrite step_schedule. exact (schedule_blacklisted c ch x a HA HI Ha Hbl). Qed.
+
+(** C07 needs the affinity invariant as well (its side condition: instances of one affinity declare the same limits) *)
+Definition reachableA (c : cell) : Prop :=
+  exists dim root level ops, wf_ops_all (init_cell dim root level) ops /\ wf_ops_aff (init_cell dim root level) ops /\
+                             c = run (init_cell dim root level) ops.
+Lemma reachableA_Good c : reachableA c -> Good c /\ Aff c.
+Proof.
+  intros (dim & root & level & ops & Hwf & Hwa & ->). split; [apply Good_run; [exact Hwf|apply Good_init]|].
+  exact (proj2 (AA_run ops _ Hwa (AA_init dim root level))).
+Qed.
+
+Theorem reachable_displaced c ch x a n s : reachableA c -> prot c x a n s -> a_renew a = false ->
+  (forall l, app_label a = Some l -> l = s_label s) ->
+  (app_traits c a = 0 \/ has_traits (s_traits s) (app_traits c a) = true) ->
+  (forall label q e, In (label, q) (snd (fst (schedule c ch))) -> In e q -> e_app e = x -> e_rank e <> UNPLACED_RANK) ->
+  (exists a', app_of (step c (OSchedule ch)) x = Some a' /\ a_server a' = Some n) \/
+  (exists z az bz l1 l2 l3,
+      turns (snd (fst (schedule c ch))) = l1 ++ z :: l2 ++ x :: l3 /\
+      app_of c z = Some az /\ a_server az <> Some n /\
+      app_of (step c (OSchedule ch)) z = Some bz /\ a_server bz = Some n).
+Proof.
+  intros Hr HP Hren Hlab Htr Hrank. destruct (reachableA_Good c Hr) as [(HA & [HI _] & HW & HR) HF]. rewrite step_schedule.
+  apply (schedule_displaced c ch x a n s HA HF HI (AllocWf_parts_wf c HW)); try assumption.
+  - apply (AllocWf_listed c HW x a). exact (pr_app _ _ _ _ _ HP).
+  - apply (HR x a (pr_app _ _ _ _ _ HP)). rewrite (pr_srv _ _ _ _ _ HP). discriminate.
+Qed.
